@@ -1285,6 +1285,9 @@ def CanvasJoin(canvas_info: Iterable[tuple[Canvas, typing.Any, bool, int]]) -> C
             composite_canvas.pad_trim_left_right(0, pad_right)
         if rows < maxrow:
             composite_canvas.pad_trim_top_bottom(0, maxrow - rows)
+            if not rows:
+                # a canvas without rows is padding only: its shard without rows must not end up in the join
+                del composite_canvas.shards[0]
         joined_canvas.coords.update(composite_canvas.translate_coords(col, 0))
         for shortcut in composite_canvas.shortcuts:
             joined_canvas.shortcuts[shortcut] = pos
